@@ -800,48 +800,48 @@ fn free_running(threads: usize, millis: u64) -> (u64, Option<(usize, String)>) {
             run_query(b.get(), q)
         })
         .collect();
-    let nsb = NsBox::new(hooks::Mode::Real);
-    let ns = nsb.get();
-    let stop = std::sync::atomic::AtomicBool::new(false);
+    // many short rounds, each on a FRESH namespace (races at the first fill of a cache entry have
+    // one window per namespace), all threads released together by a barrier
     let total = std::sync::atomic::AtomicU64::new(0);
     let bad: std::sync::Mutex<Option<(usize, String)>> = std::sync::Mutex::new(None);
-    let barrier = std::sync::Barrier::new(threads + 1);
-    std::thread::scope(|sc| {
-        for t in 0..threads {
-            let (qs, cold, stop, total, bad, barrier) = (&qs, &cold, &stop, &total, &bad, &barrier);
-            sc.spawn(move || {
-                barrier.wait();
-                let mut done = 0u64;
-                let mut round = 0usize;
-                // thread t walks the queries with its own stride and phase, and in between hammers
-                // one pair of neighbouring queries (tight alternation of two different questions)
-                'outer: while !stop.load(std::sync::atomic::Ordering::Relaxed) {
-                    round += 1;
+    let t0 = std::time::Instant::now();
+    let mut round = 0usize;
+    while t0.elapsed().as_millis() < millis as u128 && bad.lock().unwrap().is_none() {
+        round += 1;
+        let nsb = NsBox::new(hooks::Mode::Real);
+        let ns = nsb.get();
+        let barrier = std::sync::Barrier::new(threads);
+        std::thread::scope(|sc| {
+            for t in 0..threads {
+                let (qs, cold, total, bad, barrier) = (&qs, &cold, &total, &bad, &barrier);
+                sc.spawn(move || {
+                    barrier.wait();
+                    let mut done = 0u64;
+                    // thread t walks the queries with its own stride and phase; every third round
+                    // all threads start on the same query, and a long round (every 8th) keeps
+                    // hammering pairs of neighbouring queries on the warm namespace
                     let stride = 1 + (t + round) % (n - 1);
-                    let mut i = (t * 7 + round) % n;
-                    for _ in 0..n {
+                    let mut i = if round % 3 == 0 { round % n } else { (t * 7 + round) % n };
+                    let laps = if round % 8 == 0 { 6 } else { 1 };
+                    'outer: for _ in 0..laps * n {
                         for k in [i, (i + 1 + t) % n, i] {
                             let a = run_query(ns, &qs[k]);
                             done += 1;
                             if a != cold[k] {
                                 let mut b = bad.lock().unwrap();
                                 if b.is_none() {
-                                    *b = Some((k, format!("thread {t} of {threads}: query {:?} answered {a:?}, alone it answers {:?}", qs[k], cold[k])));
+                                    *b = Some((k, format!("thread {t} of {threads} (round {round}): query {:?} answered {a:?}, alone it answers {:?}", qs[k], cold[k])));
                                 }
-                                stop.store(true, std::sync::atomic::Ordering::Relaxed);
                                 break 'outer;
                             }
                         }
                         i = (i + stride) % n;
                     }
-                }
-                total.fetch_add(done, std::sync::atomic::Ordering::Relaxed);
-            });
-        }
-        barrier.wait();
-        std::thread::sleep(std::time::Duration::from_millis(millis));
-        stop.store(true, std::sync::atomic::Ordering::Relaxed);
-    });
+                    total.fetch_add(done, std::sync::atomic::Ordering::Relaxed);
+                });
+            }
+        });
+    }
     let b = bad.lock().unwrap().clone();
     (total.load(std::sync::atomic::Ordering::Relaxed), b)
 }
@@ -1053,7 +1053,8 @@ pub fn run(tier: Tier) -> i32 {
         run.note("preemption_bound_completed", json!({"2 threads": maxb, "3 threads": maxb.min(2), "supertypes_of x supertypes_of": "unbounded"}));
     }
     // ---- C14-F: free-running pass on real threads (supplementary, not exhaustive)
-    if hs.failure.is_none() {
+    // (run last, and only when the exhaustive parts found nothing: their counterexamples are schedules)
+    if run.stats.fails.is_empty() {
         for (threads, millis) in tier.pick(vec![(2usize, 1200u64), (8, 1500)], vec![(2, 6000), (4, 6000), (16, 15000)]) {
             let name = format!("free:{threads}:{millis}");
             let n2 = name.clone();
